@@ -13,7 +13,7 @@ import (
 	"verif/harness/stat"
 )
 
-const C05Rule = "Byte strings fed to ReadFrom and ReadBlock of every struct of the registry (request/response packets included) and to tup.UniAttribute.Decode: (random) uniform bytes and head-biased bytes; (mutant) valid encodings with bit flips, truncation, embedded lengths rewritten to -1/0x7fffffff/0x80000000/remaining+-1, type-nibble rewrites, spliced foreign fields; (shape) nesting bombs of StructBegin / LIST-of-LIST / MAP-of-MAP of depth 10^2..10^6 as unknown and known members, giant announced counts with tiny bodies, array lists longer than the array; (pinned hostile-site) per struct the all-members-written encoding of its default value, canonical and with byte vectors in LIST form, with each embedded count in turn set to 2^31-1, 2^28, -1, -2^31; mutants are also derived from LIST-form-byte-vector and widened-integer encodings. Oracle: returns value or error - no panic, terminates (wall <= 5 s + 1 us/byte, re-run twice before it counts), bytes allocated <= 4096*len(input)+64 KiB. Non-trivial = input not rejected at its first head byte: decoding consumed >= 3 fields before the verdict (observed as: strict scanner finds >= 3 complete leading fields), or depth >= 8, or an announced length > remaining. Distinct = distinct (struct, entry point, bytes)."
+const C05Rule = "Byte strings fed to ReadFrom and ReadBlock of every struct of the registry (request/response packets included) and to tup.UniAttribute.Decode: (random) uniform bytes and head-biased bytes; (mutant) valid encodings with bit flips, truncation, embedded lengths rewritten to -1/0x7fffffff/0x80000000/remaining+-1, type-nibble rewrites, spliced foreign fields; (shape) nesting bombs of StructBegin / LIST-of-LIST / MAP-of-MAP of depth 10^2..10^6 as unknown and known members, giant announced counts with tiny bodies, array lists longer than the array; (pinned hostile-site) per struct the all-members-written encoding of its default value, canonical and with byte vectors in LIST form, with each embedded count in turn set to 2^31-1, 2^28, -1, -2^31, and with every fixed-size array member sent as a well-formed list of 1 or 4 more elements than the array holds; mutants are also derived from LIST-form-byte-vector and widened-integer encodings. Oracle: returns value or error - no panic, terminates (wall <= 5 s + 1 us/byte, re-run twice before it counts), bytes allocated <= 4096*len(input)+64 KiB. Non-trivial = input not rejected at its first head byte: decoding consumed >= 3 fields before the verdict (observed as: strict scanner finds >= 3 complete leading fields), or depth >= 8, or an announced length > remaining. Distinct = distinct (struct, entry point, bytes)."
 
 // Seg is one run of a multi-segment hostile input: Head, then Unit repeated Rep times.
 type Seg struct {
@@ -189,6 +189,28 @@ func (r *Registry) HostileSites() map[string]C05Case {
 		for _, lfb := range []bool{false, true} {
 			enc := rc.Enc{RecordSites: true, KeepDefaults: true, ListForBytes: lfb}
 			enc.StructBody(sv)
+			if !lfb {
+				// fixed-size array members sent with more elements than the array holds (the
+				// announced count is honest, the elements are well-formed)
+				for fi, f := range sv.St.Fields {
+					if f.Type.Kind != rc.KArray {
+						continue
+					}
+					for _, extra := range []int{1, 4} {
+						long := &rc.SV{St: sv.St, Fields: append([]any{}, sv.Fields...)}
+						l := append([]any{}, sv.Fields[fi].([]any)...)
+						for k := 0; k < extra; k++ {
+							l = append(l, rc.Zero(f.Type.Elem))
+						}
+						long.Fields[fi] = l
+						le := rc.Enc{KeepDefaults: true}
+						le.StructBody(long)
+						for _, block := range []bool{false, true} {
+							out[fmt.Sprintf("%s/array-%s-with-%d-extra-elements/block=%v", key, f.Name, extra, block)] = C05Case{Struct: key, Block: block, Kind: "hostile-site", In: le.Buf, NT: true}
+						}
+					}
+				}
+			}
 			for si, s := range enc.Sites {
 				for _, v := range []int64{0x7fffffff, 1 << 28, -1, -0x80000000} {
 					var repl []byte
